@@ -15,39 +15,57 @@ inductive F where
   | tern (c a b : F)
   | lor (a b : F)
   | land (a b : F)
+  | var (n : String) (b e : Int)       -- a variable reference; (b, e) = its extent in the source (operand of mark.detail)
+  | asg (n : String) (a : F)           -- `n = a`, itself an expression whose value is the value assigned
   deriving Inhabited
 
+/-- a stored value that a load hands out as it is: not the undefined marker and not a computed value (which a load would run) -/
+def isPlain : Val → Bool
+  | .null => false
+  | .comp _ => false
+  | _ => true
+
 /-- definitional semantics: left-to-right, strict except `?:` and `||`; `&&` evaluates both operands (the language's rule) -/
-def evalF (z : Bool) : Heap → F → Heap × Res Val
+def evalF (z : Bool) (env : Nat) : Heap → F → Heap × Res Val
   | h, .lit i => (h, .ok (.int i))
   | h, .bin op a b =>
-    (match evalF z h a with
+    (match evalF z env h a with
      | (h1, .ok va) =>
-       (match evalF z h1 b with
+       (match evalF z env h1 b with
         | (h2, .ok vb) => binOp h2 z op va vb
         | r => r)
      | r => r)
   | h, .neg a =>
-    (match evalF z h a with
+    (match evalF z env h a with
      | (h1, .ok v) =>
        (match opNeg v with
         | some r => (h1, .ok r)
         | none => (h1, .err ("此类型无法使用一元算符 " ++ "neg" ++ ": " ++ typeName v)))
      | r => r)
   | h, .tern c a b =>
-    (match evalF z h c with
-     | (h1, .ok vc) => if asBool h1 vc then evalF z h1 a else evalF z h1 b
+    (match evalF z env h c with
+     | (h1, .ok vc) => if asBool h1 vc then evalF z env h1 a else evalF z env h1 b
      | r => r)
   | h, .lor a b =>
-    (match evalF z h a with
-     | (h1, .ok va) => if asBool h1 va then (h1, .ok va) else evalF z h1 b
+    (match evalF z env h a with
+     | (h1, .ok va) => if asBool h1 va then (h1, .ok va) else evalF z env h1 b
      | r => r)
   | h, .land a b =>
-    (match evalF z h a with
+    (match evalF z env h a with
      | (h1, .ok va) =>
-       (match evalF z h1 b with
+       (match evalF z env h1 b with
         | (h2, .ok vb) => (h2, .ok (if !(asBool h2 va) then va else vb))
         | r => r)
+     | r => r)
+  -- variables live in the dict at heap address `env` (the context's attribute table); a name bound to a plain value yields it;
+  -- anything else (unbound: enclosing scopes, globals, builtins; computed: a sub-VM run) is outside the fragment
+  | h, .var n _ _ =>
+    (match dictGet (h.dictOf env) n with
+     | some v => if isPlain v then (h, .ok v) else (h, .unsup "variable outside the fragment")
+     | none => (h, .unsup "variable outside the fragment"))
+  | h, .asg n a =>
+    (match evalF z env h a with
+     | (h1, .ok v) => (h1.setDict env (dictSet (h1.dictOf env) n v), .ok v)
      | r => r)
 
 def compile : F → List Instr
@@ -58,6 +76,8 @@ def compile : F → List Instr
     compile c ++ [.jne (some ((compile a).length + 1))] ++ compile a ++ [.jmp (some (compile b).length)] ++ compile b
   | .lor a b => compile a ++ [.jeDup (some ((compile b).length + 2))] ++ compile b ++ [.jeDup (some 1)] ++ [.pushLast]
   | .land a b => compile a ++ compile b ++ [.logicAnd]
+  | .var n b e => [.markDetail b e, .ldD n]
+  | .asg n a => compile a ++ [.store n]
 
 /-- operand-stack slots the code of `e` needs above the current top -/
 def depth : F → Nat
@@ -67,5 +87,24 @@ def depth : F → Nat
   | .tern c a b => max (depth c) (max (depth a) (depth b))
   | .lor a b => max (depth a) (depth b)
   | .land a b => max (depth a) (depth b + 1)
+  | .var _ _ _ => 1
+  | .asg _ a => depth a
+
+/-- definitional semantics of a statement sequence: left to right, the first failure ends it, the value is the last statement's -/
+def evalS (z : Bool) (env : Nat) : Heap → List F → Heap × Res Val
+  | h, [] => (h, .unsup "empty program")
+  | h, [e] => evalF z env h e
+  | h, e :: e2 :: r =>
+    (match evalF z env h e with
+     | (h1, .ok _) => evalS z env h1 (e2 :: r)
+     | x => x)
+
+def compileS : List F → List Instr
+  | [] => []
+  | e :: r => compile e ++ compileS r
+
+def depthS : List F → Nat
+  | [] => 0
+  | e :: r => max (depth e) (1 + depthS r)
 
 end DS.Frag
